@@ -98,6 +98,30 @@ def field_points(fields, k, fixed=()):
 
 
 BLOB_A = bytes(range(0x41, 0x41 + 20))
+N_CONTENT = 10
+
+
+def content(variant, n):
+    """n bytes of payload for a text / opaque field: what is INSIDE such a field must come back byte for byte, whatever it is"""
+    if variant == 0:
+        return bytes(0x41 + i % 26 for i in range(n))
+    if variant == 1:
+        return bytes(n)
+    if variant == 2:
+        return b" " * n
+    if variant == 3:
+        return b"\xff" * n
+    if variant == 4:
+        return bytes((0x80 + 7 * i) & 0xFF | 0x80 for i in range(n))
+    if variant == 5:
+        return (b"AB" + bytes(n))[:n]                      # NUL-terminated short text
+    if variant == 6:
+        return (b"   " + bytes(0x61 + i % 26 for i in range(n)))[:n]     # leading blanks
+    if variant == 7:
+        return bytes(0 if i == n // 2 else 0x30 + i % 10 for i in range(n))   # a NUL in the middle
+    if variant == 8:
+        return bytes((0xFF - i) & 0xFF for i in range(n))
+    return ("\u00e9\u4e2d" * n).encode("utf-8")[:n]        # multi-byte UTF-8, possibly cut in the middle of a character
 BIG_COUNTS = (10, 11, 12, 16, 17, 32, 33)
 TIDS = [
     {"protocol_id": 0, "n_port_name": bytes(range(1, 9))},
@@ -106,6 +130,10 @@ TIDS = [
     {"protocol_id": 5, "iscsi_name": "iqn.2000-01.verif:abc"},
     {"protocol_id": 5, "tpid_format": 1, "iscsi_name": "iqn.2000-01.verif:x", "iscsi_initiator_session_id": "00023d000001"},
     {"protocol_id": 6, "sas_address": bytes(range(0x31, 0x39))},
+    # iSCSI names are UTF-8 (RFC 3722): characters of 2 and 3 bytes, with and without a session id
+    {"protocol_id": 5, "iscsi_name": "iqn.2004-10.de.m\u00fcnchen:speicher-\u00e4"},
+    {"protocol_id": 5, "tpid_format": 1, "iscsi_name": "iqn.2004-10.de.m\u00fcnchen:speicher-\u00e4", "iscsi_initiator_session_id": "00023d000002"},
+    {"protocol_id": 5, "tpid_format": 1, "iscsi_name": "iqn.2000-01.jp.\u4e2d\u6587:x", "iscsi_initiator_session_id": "00023d00000f"},
 ]
 DESIGNATORS = [
     ({"designator_type": 0, "code_set": 1}, {"vendor_specific": b"\x01\x02\x03\x04\x05"}),
@@ -131,6 +159,8 @@ def build(case):
     if fmt == "inquiry_std":
         _, vals, blob, tail = case
         blobs = {"t10_vendor_identification": BLOB_A[:8], "product_identification": BLOB_A[:16], "product_revision_level": BLOB_A[:4]} if blob else None
+        if blob >= 2:
+            blobs = {"t10_vendor_identification": content(blob - 2, 8), "product_identification": content(blob - 2, 16), "product_revision_level": content(blob - 2, 4)}
         data = R.std_inquiry(vals, blobs, size=96) + bytes(tail)
         exp = dict(vals)
         exp.setdefault("additional_length", 91)
@@ -147,16 +177,21 @@ def build(case):
         data = R.vpd(0x00, bytes(pages)) + bytes(tail)
         return fmt, data, {"page_code": 0, "vpd_pages": list(pages)}, lambda d: lib("Inquiry").unmarshall_datain(d, evpd=1)
     if fmt == "vpd80":
-        _, n, tail = case
-        sn = bytes((0x30 + i % 10) for i in range(n))
+        _, n, tail = case[:3]
+        sn = bytes((0x30 + i % 10) for i in range(n)) if len(case) < 4 else content(case[3], n)
         data = R.vpd(0x80, sn) + bytes(tail)
         return fmt, data, {"page_code": 0x80, "unit_serial_number": sn}, lambda d: lib("Inquiry").unmarshall_datain(d, evpd=1)
     if fmt == "vpd83":
-        _, idxs, tail = case
+        _, idxs, tail = case[:3]
         descs = []
         exp = []
         for i in idxs:
             h, d = DESIGNATORS[i]
+            if len(case) > 3:
+                # the opaque / text parts of the designator carry the given content (same lengths)
+                d = {k: (content(case[3], len(v)) if isinstance(v, (bytes, bytearray)) else v) for k, v in d.items()}
+                if "scsi_name_string" in d and case[3] != 1:
+                    d["scsi_name_string"] = d["scsi_name_string"][:-1] + b"\0"      # the standard requires the terminator
             h = dict(h)
             descs.append((h, d))
             e = {k: v for k, v in h.items() if k != "protocol_identifier"}
@@ -495,6 +530,8 @@ def gen(part, tier):
             yield ["inquiry_std", vals, 1, 0]
         yield ["inquiry_std", {}, 0, 0]
         yield ["inquiry_std", {"peripheral_device_type": 5}, 1, 32]
+        for cv in range(N_CONTENT):
+            yield ["inquiry_std", {"peripheral_device_type": 0, "version": 6}, 2 + cv, 0]
     elif name in ("vpd86", "vpdb0", "vpdb1", "vpdb2", "vpdb3"):
         page = int(name[3:], 16)
         for vals in field_points(R.VPD_FIXED[page][0], k):
@@ -504,6 +541,9 @@ def gen(part, tier):
     elif name == "vpd_lists":
         for n in (255, 256, 257, 600):
             yield ["vpd80", n, 0]
+        for cv in range(N_CONTENT):
+            for n in (1, 4, 8, 20, 33):
+                yield ["vpd80", n, 0, cv]
         yield ["vpd00", list(range(256)), 0]
         yield ["vpd00", [0x00, 0x80, 0x80, 0x83, 0x83, 0x83], 0]
         for n in range(0, 12):
@@ -520,6 +560,11 @@ def gen(part, tier):
         yield ["vpd83", [], 0]
         yield ["vpd83", [], 20]
         yield ["vpd83", list(range(n)), 3]
+        for cv in range(N_CONTENT):
+            for i in range(n):
+                if any(isinstance(v, (bytes, bytearray)) for v in DESIGNATORS[i][1].values()):
+                    yield ["vpd83", [i], 0, cv]
+            yield ["vpd83", [0, 1, 4, n - 2, n - 1], 2, cv]
         for cnt in BIG_COUNTS[:5]:
             yield ["vpd83", [(i * 5) % n for i in range(cnt)], 0]
         if k > 1:
@@ -607,7 +652,7 @@ def gen(part, tier):
                         for i in range(nd):
                             v = dict({"element_address": 0x100 + i, "full": i & 1, "source_storage_element_address": 0x20 + i}, **extra)
                             if pv:
-                                v["primary_volume_tag"] = "hex:" + (b"PVOL%02d" % i).ljust(36, b" ").hex()
+                                v["primary_volume_tag"] = "hex:" + ((b"PVOL%02d" % i).ljust(36, b" ") if nd != 2 else content((i + et) % N_CONTENT, 36)).hex()
                             if av:
                                 v["alternate_volume_tag"] = "hex:" + (b"AVOL%02d" % i).ljust(36, b" ").hex()
                             descs.append(v)
